@@ -1,12 +1,418 @@
-//! stub
-use super::Ctx;
-use crate::engine::evidence::{Case, Report, Verdict};
-pub fn run_c02(_ctx: &Ctx, _rep: &mut Report) {
-    crate::engine::monitor::machinery_fail("not implemented");
+//! C02 - six/seven-card value is the best contained five-card hand.
+//! C03 - the reported best hand is a sorted five-card witness drawn from the input.
+//!
+//! Both properties explore the same spaces (each in its own pass with its own evidence):
+//!   quick:    6H x (six rotations + reverse); 7H x (canonical order + one rotating member of P7 per hand);
+//!             the trait's other value entry points on the canonical order; C03 adds 5H x 120 (identity clause)
+//!   thorough: 6H x all 720 orders; 7H x all 21 members of P7; every 7-card hand of two 24-card sub-decks in
+//!             all 5,040 orders; both build profiles
+//! Oracle (C02): best-of-n computed two independent ways (minimum over subsets; direct rule evaluation).
+//! Oracle (C03): the witness conditions of the statement; any valid witness is accepted.
+use super::{confirm, confirm_mismatch, oracle, sample_json, Ctx};
+use crate::engine::enumerate::{choose, combos, combos_prefix, p6, p7, par_parts, permutations};
+use crate::engine::evidence::{Acc, Case, Report, Verdict};
+use crate::engine::monitor::{self, guard};
+use crate::oracle::cards::{deck, show_words, Card};
+use crate::oracle::poker::{class_text, classify, key_cat, CAT_NAME, HANDS6_PER_CAT, HANDS7_PER_CAT};
+use ckc_rs::cards::five::Five;
+use ckc_rs::cards::seven::Seven;
+use ckc_rs::cards::six::Six;
+use ckc_rs::cards::HandRanker;
+use std::time::Instant;
+
+#[derive(Clone, Copy, PartialEq, Eq)]
+enum Mode {
+    Value,
+    Witness,
 }
-pub fn run_c03(_ctx: &Ctx, _rep: &mut Report) {
-    crate::engine::monitor::machinery_fail("not implemented");
+
+fn rank_and_hand(w: &[u32]) -> (u16, [u32; 5]) {
+    match w.len() {
+        5 => {
+            let (v, h) = Five::from([w[0], w[1], w[2], w[3], w[4]]).hand_rank_value_and_hand();
+            (v, h.to_arr())
+        }
+        6 => {
+            let (v, h) = Six::from([w[0], w[1], w[2], w[3], w[4], w[5]]).hand_rank_value_and_hand();
+            (v, h.to_arr())
+        }
+        _ => {
+            let (v, h) = Seven::from([w[0], w[1], w[2], w[3], w[4], w[5], w[6]]).hand_rank_value_and_hand();
+            (v, h.to_arr())
+        }
+    }
 }
-pub fn judge(_case: &Case) -> Verdict {
-    Verdict::NotJudged("not implemented".into())
+
+pub const VALUE_ENTRIES: [&str; 5] = ["hand_rank_value_and_hand.0", "hand_rank_value", "hand_rank.value", "hand_rank_value_validated", "hand_rank_validated.value"];
+
+fn call_value(entry: &str, w: &[u32]) -> Option<u16> {
+    macro_rules! go {
+        ($h:expr) => {
+            Some(match entry {
+                "hand_rank_value_and_hand.0" => $h.hand_rank_value_and_hand().0,
+                "hand_rank_value" => $h.hand_rank_value(),
+                "hand_rank.value" => $h.hand_rank().value,
+                "hand_rank_value_validated" => $h.hand_rank_value_validated(),
+                "hand_rank_validated.value" => $h.hand_rank_validated().value,
+                _ => return None,
+            })
+        };
+    }
+    match w.len() {
+        6 => go!(Six::from([w[0], w[1], w[2], w[3], w[4], w[5]])),
+        7 => go!(Seven::from([w[0], w[1], w[2], w[3], w[4], w[5], w[6]])),
+        _ => None,
+    }
+}
+
+/// slow, independent best-of-n: minimum over all subsets of the ordinal of `classify`
+fn slow_best(cards: &[Card]) -> (u16, u32) {
+    let o = oracle();
+    let mut best = (u16::MAX, 0u32);
+    for s in combos(cards.len(), 5) {
+        let c: Vec<Card> = s.iter().map(|i| cards[*i]).collect();
+        let flush = c.iter().all(|x| x.suit() == c[0].suit());
+        let key = classify([c[0].rank(), c[1].rank(), c[2].rank(), c[3].rank(), c[4].rank()], flush);
+        let v = o.ord_of(key);
+        if v < best.0 {
+            best = (v, key);
+        }
+    }
+    best
+}
+
+/// Case kinds: "<six|seven>.<value entry>" (C02) and "<five|six|seven>.witness" (C03).
+pub fn judge(case: &Case) -> Verdict {
+    let w = case.w32s();
+    let (size, entry) = match case.kind.split_once('.') {
+        Some(x) => x,
+        None => return Verdict::NotJudged("bad case kind".into()),
+    };
+    let n = match size {
+        "five" => 5,
+        "six" => 6,
+        "seven" => 7,
+        _ => return Verdict::NotJudged("bad case kind".into()),
+    };
+    if w.len() != n {
+        return Verdict::NotJudged("word count does not match the hand size".into());
+    }
+    let cards = match super::c01::distinct_cards(&w) {
+        Some(c) => c,
+        None => return Verdict::NotJudged("not distinct real cards: outside the property's domain".into()),
+    };
+    if entry == "witness" {
+        return match guard(|| rank_and_hand(&w)) {
+            Err(p) => Verdict::Violated { class: format!("panic:{}", case.kind), expected: "a value and a witness".into(), observed: format!("panic: {}", p) },
+            Ok((v, hand)) => {
+                if n == 5 {
+                    if hand != [w[0], w[1], w[2], w[3], w[4]] {
+                        return Verdict::Violated { class: "five-witness-not-identity".into(), expected: format!("the input unchanged: {}", show_words(&w)), observed: show_words(&hand) };
+                    }
+                    return Verdict::Holds;
+                }
+                let mut problems = Vec::new();
+                if !hand.windows(2).all(|x| x[0] > x[1]) {
+                    problems.push("not-descending");
+                }
+                if !hand.iter().all(|x| w.contains(x)) {
+                    problems.push("card-not-from-input");
+                }
+                match guard(|| Five::from(hand).hand_rank_value()) {
+                    Ok(hv) if hv == v => {}
+                    Ok(_) => problems.push("witness-ranks-differently"),
+                    Err(_) => problems.push("witness-ranking-panics"),
+                }
+                if problems.is_empty() {
+                    Verdict::Holds
+                } else {
+                    let hv = guard(|| Five::from(hand).hand_rank_value());
+                    Verdict::Violated {
+                        class: format!("{}:{}", case.kind, problems.join("+")),
+                        expected: format!("five distinct input cards in descending order whose own value is the reported {}", v),
+                        observed: format!("witness {} (words {:?}) ranks {:?}; input {}", show_words(&hand), hand, hv, show_words(&w)),
+                    }
+                }
+            }
+        };
+    }
+    if n == 5 {
+        return Verdict::NotJudged("C02 is about six and seven cards".into());
+    }
+    let (exp, key) = slow_best(&cards);
+    if oracle().best_by_rules(&cards) != exp {
+        monitor::machinery_fail("best-of-n oracles (a) and (b) disagree");
+    }
+    match guard(|| call_value(entry, &w)) {
+        Err(p) => Verdict::Violated { class: format!("panic:{}", case.kind), expected: format!("value {}", exp), observed: format!("panic: {}", p) },
+        Ok(None) => Verdict::NotJudged(format!("unknown entry point {}", entry)),
+        Ok(Some(v)) if v != exp => Verdict::Violated {
+            class: format!("wrong-value:{}", case.kind),
+            expected: format!("value {} ({}) = best five-card hand in {}", exp, class_text(key), show_words(&w)),
+            observed: format!("value {}", v),
+        },
+        Ok(Some(_)) => Verdict::Holds,
+    }
+}
+
+struct SpaceSpec<'a> {
+    name: String,
+    note: String,
+    n: usize,
+    /// the (sub-)deck hands are drawn from
+    cards: Vec<Card>,
+    /// slot orders: `order[i]` is the slot card i goes to
+    orders: &'a [Vec<usize>],
+    /// how many of `orders` each hand gets: all of them, or the first `fixed` plus one rotating further member
+    rotate: Option<usize>,
+    /// also run the other value entry points on the canonical order
+    extra_entries: bool,
+    full_universe: bool,
+}
+
+const H_CAT: usize = 0; // 9 slots: hands by category of the best hand
+const H_ROW: usize = 9; // 21 slots: slot-combination uniquely decisive
+const H_TIE: usize = 30; // hands where several subsets tie for best
+const H_WDIFF: usize = 31; // hands whose witness differs between explored orders
+const H_LEN: usize = 32;
+
+fn sweep(ctx: &Ctx, rep: &mut Report, mode: Mode, sp: &SpaceSpec) {
+    let o = oracle();
+    let n = sp.n;
+    let size_name = if n == 6 { "six" } else { "seven" };
+    let subsets: Vec<Vec<usize>> = combos(n, 5);
+    let rows = subsets.len();
+    let mut row_of_mask = [usize::MAX; 128];
+    for (i, s) in subsets.iter().enumerate() {
+        row_of_mask[s.iter().fold(0usize, |m, x| m | 1 << x)] = i;
+    }
+    let m = sp.cards.len();
+    let mut parts = Vec::new();
+    for a in 0..m {
+        for b in a + 1..m {
+            if b + (n - 2) < m {
+                parts.push((a, b));
+            }
+        }
+    }
+    let kind = monitor::kind_id(&format!("{}.{}", size_name, if mode == Mode::Value { "hand_rank_value_and_hand.0" } else { "witness" }));
+    let t0 = Instant::now();
+    let per_hand_orders = match sp.rotate {
+        None => sp.orders.len(),
+        Some(fixed) => fixed + 1,
+    };
+    let accs = par_parts(parts.len(), |pi| {
+        let (a, b) = parts[pi];
+        let mut acc = Acc::new(H_LEN);
+        let mut hand_no: u64 = 0;
+        let mut cs: Vec<Card> = vec![Card(0); n];
+        let mut w = vec![0u32; n];
+        let mut arr = vec![0u32; n];
+        let mut ords = vec![0u16; rows];
+        combos_prefix(m, n, &[a, b], &mut |idx| {
+            for i in 0..n {
+                cs[i] = sp.cards[idx[i]];
+                w[i] = cs[i].word();
+            }
+            // oracle, way (a): minimum over subsets; way (b): direct rules
+            let mut best = u16::MAX;
+            for (r, s) in subsets.iter().enumerate() {
+                let v = o.ord5(&[cs[s[0]], cs[s[1]], cs[s[2]], cs[s[3]], cs[s[4]]]);
+                ords[r] = v;
+                if v < best {
+                    best = v;
+                }
+            }
+            if o.best_by_rules(&cs) != best {
+                monitor::machinery_fail(&format!("best-of-n oracles (a) and (b) disagree on {:?}", cs));
+            }
+            let attain = ords.iter().filter(|v| **v == best).count();
+            let decisive = if attain == 1 { ords.iter().position(|v| *v == best) } else { None };
+            acc.hist[H_CAT + key_cat(o.key_of_ord(best).unwrap()) as usize] += 1;
+            if attain > 1 {
+                acc.hist[H_TIE] += 1;
+            }
+            let mut first_witness: Option<[u32; 5]> = None;
+            let mut wdiff = false;
+            for k in 0..per_hand_orders {
+                let ord = match sp.rotate {
+                    None => &sp.orders[k],
+                    Some(fixed) if k < fixed => &sp.orders[k],
+                    Some(fixed) => &sp.orders[fixed + ((hand_no + pi as u64 + ctx.seed) % (sp.orders.len() - fixed) as u64) as usize],
+                };
+                for i in 0..n {
+                    arr[ord[i]] = w[i];
+                }
+                if let Some(s) = decisive {
+                    let mask = subsets[s].iter().fold(0usize, |mm, x| mm | 1 << ord[*x]);
+                    acc.hist[H_ROW + row_of_mask[mask]] += 1;
+                }
+                let mut w64 = [0u64; 7];
+                for i in 0..n {
+                    w64[i] = arr[i] as u64;
+                }
+                monitor::beat(kind, &w64[..n]);
+                acc.cases += 1;
+                acc.calls += 1;
+                let r = guard(|| rank_and_hand(&arr));
+                match mode {
+                    Mode::Value => {
+                        if !matches!(r, Ok((v, _)) if v == best) {
+                            acc.violate(confirm_mismatch(judge, Case::w32(&format!("{}.hand_rank_value_and_hand.0", size_name), &arr)));
+                        }
+                        if sp.extra_entries && k == 0 {
+                            for e in &VALUE_ENTRIES[1..] {
+                                acc.calls += 1;
+                                if !matches!(guard(|| call_value(e, &arr)), Ok(Some(v)) if v == best) {
+                                    acc.violate(confirm_mismatch(judge, Case::w32(&format!("{}.{}", size_name, e), &arr)));
+                                }
+                            }
+                        }
+                    }
+                    Mode::Witness => {
+                        let ok = match &r {
+                            Ok((v, h)) => {
+                                acc.calls += 1;
+                                let good = h.windows(2).all(|x| x[0] > x[1]) && h.iter().all(|x| w.contains(x)) && matches!(guard(|| Five::from(*h).hand_rank_value()), Ok(hv) if hv == *v);
+                                match first_witness {
+                                    None => first_witness = Some(*h),
+                                    Some(f) if f != *h => wdiff = true,
+                                    _ => {}
+                                }
+                                good
+                            }
+                            Err(_) => false,
+                        };
+                        if !ok {
+                            acc.violate(confirm_mismatch(judge, Case::w32(&format!("{}.witness", size_name), &arr)));
+                        }
+                    }
+                }
+            }
+            if wdiff {
+                acc.hist[H_WDIFF] += 1;
+            }
+            // non-trivial: the best hand is not simply the first five slots' hand in canonical order
+            if ords[0] != best {
+                acc.nontrivial += per_hand_orders as u64;
+            }
+            if acc.samples.is_empty() && (pi as u64 + ctx.seed) % 97 == 0 && hand_no == 3 {
+                let (v, h) = rank_and_hand(&w);
+                acc.samples.push(sample_json(&format!("{}.hand_rank_value_and_hand", size_name), &show_words(&w), &format!("value {} witness {} ; oracle best {} ({})", v, show_words(&h), best, class_text(o.key_of_ord(best).unwrap()))));
+            }
+            hand_no += 1;
+        });
+        acc
+    });
+    let acc = Acc::merged(accs);
+    rep.add_space(&sp.name, &acc, t0, &sp.note);
+    let pre = format!("{}:", sp.name);
+    rep.hist_named(&format!("{}best_category:", pre), &CAT_NAME, &acc.hist[H_CAT..H_CAT + 9]);
+    for r in 0..rows {
+        rep.hist_add(&format!("{}uniquely_decisive_slot_row_{:02}_{:?}", pre, r, subsets[r]), acc.hist[H_ROW + r]);
+    }
+    rep.hist_add(&format!("{}hands_with_tied_best_subsets", pre), acc.hist[H_TIE]);
+    if mode == Mode::Witness {
+        rep.hist_add(&format!("{}hands_whose_witness_differs_between_orders", pre), acc.hist[H_WDIFF]);
+    }
+    let hands: u64 = acc.hist[H_CAT..H_CAT + 9].iter().sum();
+    rep.guard(&format!("{}: number of hands", sp.name), hands == choose(m as u64, n as u64), format!("{} hands, expected C({},{})", hands, m, n));
+    if sp.full_universe {
+        let expect = if n == 6 { HANDS6_PER_CAT } else { HANDS7_PER_CAT };
+        rep.guard(&format!("{}: best-hand category histogram equals the combinatorial constants", sp.name), (0..9).all(|c| acc.hist[H_CAT + c] == expect[c]), format!("{:?}", &acc.hist[H_CAT..H_CAT + 9]));
+    }
+    rep.guard(
+        &format!("{}: every slot row is uniquely decisive for some explored (hand, order)", sp.name),
+        (0..rows).all(|r| acc.hist[H_ROW + r] > 0),
+        format!("{:?}", &acc.hist[H_ROW..H_ROW + rows]),
+    );
+}
+
+fn to_orders<const N: usize>(v: Vec<[usize; N]>) -> Vec<Vec<usize>> {
+    v.into_iter().map(|p| p.to_vec()).collect()
+}
+
+fn sub_deck(ranks: &[u8]) -> Vec<Card> {
+    // deck order: suit-major like the full deck
+    deck().iter().copied().filter(|c| ranks.contains(&c.rank())).collect()
+}
+
+fn run_mode(ctx: &Ctx, rep: &mut Report, mode: Mode) {
+    let full = deck().to_vec();
+    if !ctx.tier.thorough() {
+        // 6H x (P6 + reverse)
+        let mut o6 = to_orders(p6());
+        o6.push((0..6).rev().collect());
+        sweep(ctx, rep, mode, &SpaceSpec { name: "6H x (6 rotations + reverse)".into(), note: "all 20,358,520 six-card subsets; by the P6 covering fact every five-card sub-hand meets every slot combination".into(), n: 6, cards: full.clone(), orders: &o6, rotate: None, extra_entries: true, full_universe: true });
+        // 7H x (identity + one rotating member of P7)
+        let o7 = to_orders(p7());
+        sweep(ctx, rep, mode, &SpaceSpec { name: "7H x (canonical + 1 rotating P7 order)".into(), note: "all 133,784,560 seven-card subsets in canonical order, plus for each hand one further member of P7 chosen by hand index (every member is applied to ~1/20 of the universe)".into(), n: 7, cards: full.clone(), orders: &o7, rotate: Some(1), extra_entries: false, full_universe: true });
+    } else {
+        let o6 = permutations(6);
+        sweep(ctx, rep, mode, &SpaceSpec { name: "6H x all 720 orders".into(), note: "all six-card subsets in every slot order: the whole six-card domain".into(), n: 6, cards: full.clone(), orders: &o6, rotate: None, extra_entries: true, full_universe: true });
+        let o7 = to_orders(p7());
+        sweep(ctx, rep, mode, &SpaceSpec { name: "7H x P7 (21 orders)".into(), note: "all seven-card subsets; P7 puts every five-card sub-hand of every hand on every slot combination exactly once".into(), n: 7, cards: full.clone(), orders: &o7, rotate: None, extra_entries: true, full_universe: true });
+        let all7 = permutations(7);
+        sweep(ctx, rep, mode, &SpaceSpec { name: "sub-deck {A,K,Q,J,T,9} x all 5040 orders".into(), note: "every 7-card hand of the 24-card sub-deck in every slot order".into(), n: 7, cards: sub_deck(&[12, 11, 10, 9, 8, 7]), orders: &all7, rotate: None, extra_entries: false, full_universe: false });
+        sweep(ctx, rep, mode, &SpaceSpec { name: "sub-deck {A,8,5,4,3,2} x all 5040 orders".into(), note: "every 7-card hand of the 24-card sub-deck (wheels, low cards) in every slot order".into(), n: 7, cards: sub_deck(&[12, 6, 3, 2, 1, 0]), orders: &all7, rotate: None, extra_entries: false, full_universe: false });
+    }
+    rep.assume("best-of-n oracle: minimum over subsets of the rule-derived class ordinal, cross-checked on every explored hand against a direct rule evaluator");
+}
+
+pub fn run_c02(ctx: &Ctx, rep: &mut Report) {
+    run_mode(ctx, rep, Mode::Value);
+    rep.rule = "distinct (hand, slot order) pairs; non-trivial = the best five-card hand is not the one in the first five canonical slots (so the search over slot combinations matters)".into();
+    rep.bound = if ctx.tier.thorough() {
+        "six cards: complete (all subsets x all 720 orders). seven cards: all subsets x the 21 orders of P7 (every 5-sub-hand on every slot combination), plus all 5,040 orders on two 24-card sub-decks; the remaining orders of the remaining hands are outside".into()
+    } else {
+        "six cards: all subsets x 7 orders (P6 covering + reverse). seven cards: all subsets x canonical order + one rotating P7 order per hand".into()
+    };
+}
+
+pub fn run_c03(ctx: &Ctx, rep: &mut Report) {
+    run_mode(ctx, rep, Mode::Witness);
+    // identity clause: 5H x 120 orders
+    let d = deck();
+    let perms: Vec<Vec<usize>> = permutations(5);
+    let mut parts = Vec::new();
+    for a in 0..48usize {
+        for b in a + 1..49 {
+            parts.push((a, b));
+        }
+    }
+    let kind = monitor::kind_id("five.witness");
+    let t0 = Instant::now();
+    let accs = par_parts(parts.len(), |pi| {
+        let (a, b) = parts[pi];
+        let mut acc = Acc::new(1);
+        for c in b + 1..50 {
+            for dd in c + 1..51 {
+                for e in dd + 1..52 {
+                    let w = [d[a].word(), d[b].word(), d[c].word(), d[dd].word(), d[e].word()];
+                    monitor::beat(kind, &[w[0] as u64, w[1] as u64, w[2] as u64, w[3] as u64, w[4] as u64]);
+                    for p in &perms {
+                        let arr = [w[p[0]], w[p[1]], w[p[2]], w[p[3]], w[p[4]]];
+                        acc.cases += 1;
+                        acc.calls += 1;
+                        if !matches!(guard(|| Five::from(arr).hand_rank_value_and_hand().1.to_arr()), Ok(h) if h == arr) {
+                            if let Some(v) = confirm(judge, Case::w32("five.witness", &arr)) {
+                                acc.violate(v);
+                            } else {
+                                monitor::machinery_fail("five.witness fast path mismatch not reproduced");
+                            }
+                        }
+                        if arr != w {
+                            acc.nontrivial += 1;
+                        }
+                    }
+                }
+            }
+        }
+        acc
+    });
+    let acc = Acc::merged(accs);
+    rep.add_space("5H x 120 orders (identity clause)", &acc, t0, "the reported hand of a five-card input is the input unchanged");
+    rep.rule = "distinct (hand, slot order) pairs; non-trivial (6/7 cards) = the best hand is not in the first five canonical slots; (5 cards) = a non-canonical order".into();
+    rep.bound = if ctx.tier.thorough() { "as C02 thorough, plus all five-card hands x 120 orders".into() } else { "as C02 quick, plus all five-card hands x 120 orders".into() };
+    rep.assume("any witness satisfying the statement's conditions is accepted; which of several tied sub-hands is returned is not judged");
 }
